@@ -585,9 +585,10 @@ class Block:
                                     for j in range(w.width):
                                         shift = w.width - j - 1
                                         rel_i = (i//sustain_count) * sustain_count
-                                        if rel_i - shift >= 0:
+                                        if rel_i - shift >= 0 and results[df.name][rel_i - shift] != "":
                                             args.append(results[df.name][rel_i - shift])
                                         else:
+                                            # before the first trial, or `df` has no level for that trial
                                             args.append(None)
                                 if w.width > 1:
                                     args = list(chunk_dict(args, w.width))
